@@ -468,6 +468,12 @@ class DOK(SparseArray, NDArrayOperatorsMixin):
 
         return result
 
+    def isinf(self):
+        return self.to_coo().isinf().asformat("dok")
+
+    def isnan(self):
+        return self.to_coo().isnan().asformat("dok")
+
     def asformat(self, format, **kwargs):
         """
         Convert this sparse array to a given format.
